@@ -14,7 +14,7 @@ HARNESS = {"bin": "core"}
 # dev = debug assertions + overflow checks at opt-level 1; dbg0 = a plain unoptimised debug build (largest stack frames)
 EXTRA_HARNESS = {"dev": ("dev", ()), "dbg0": ("dbg0", ())}
 EXTRA_ORACLE = ["dev", "dbg0"]
-THEOREMS = ["see Props/C05.v"]
+THEOREMS = ["Props/C05.v (16): check_recursion and the key-path bound are enforced; the depth of every parsed value / document is at most the bound derived from LIMIT (5*LIMIT-6 for a whole document, attained); constructs below the limit are accepted, at the limit rejected (names in coverage.theorem_names)"]
 LIMIT = 80
 # the bound PROVED for the model in Props/C05.v (C05_depth_bound: DEPTH_BOUND = 5 * LIMIT - 6 = 394) and attained by
 # 79 chained [[..]] headers + a 79-segment dotted key + 78 arrays around an inline table with a 79-segment dotted key
